@@ -1788,15 +1788,63 @@ def _mentions_binder(terms, nb):
     return False
 
 
+_reads_cache = {}
+
+
+def reads_of(fn, _seen=None):
+    """Attribute names a SpecPy function may read (transitively through the
+    SpecPy functions it calls): the heap arrays its uninterpreted symbol must
+    depend on, so that a heap update gives a new application."""
+    if fn in _reads_cache:
+        return _reads_cache[fn]
+    seen = _seen if _seen is not None else set()
+    if fn in seen:
+        return set()
+    seen.add(fn)
+    out = set()
+    try:
+        node = func_ast(fn)
+    except (OSError, TypeError):
+        return out
+    g = fn.__globals__
+    for n in ast.walk(node):
+        if isinstance(n, ast.Attribute) and isinstance(n.ctx, ast.Load):
+            base = n.value
+            if isinstance(base, ast.Name) and isinstance(g.get(base.id), types.ModuleType):
+                tgt = getattr(g[base.id], n.attr, None)
+                if isinstance(tgt, types.FunctionType) and (tgt.__module__ or '').split('.')[0] in ('spec', 'contracts'):
+                    out |= reads_of(tgt, seen)
+                continue
+            out.add(n.attr)
+        elif isinstance(n, ast.Name) and isinstance(n.ctx, ast.Load):
+            tgt = g.get(n.id)
+            if isinstance(tgt, types.FunctionType) and (tgt.__module__ or '').split('.')[0] in ('spec', 'contracts'):
+                out |= reads_of(tgt, seen)
+        elif isinstance(n, ast.Call) and isinstance(n.func, ast.Name) and n.func.id in ('getattr', 'hasattr'):
+            out.add('*')
+    if _seen is None:
+        _reads_cache[fn] = out
+    return out
+
+
 def _spec_uf(self, fn, args, kwargs):
     if kwargs:
         raise Unsupported('keyword arguments to recursive spec function')
     kind = getattr(fn, '_returns', 'val')
     name = 'spec_' + fn.__name__
     terms = [self.lift(a) for a in args]
-    extra = [self.path.heap_arr(a) for a in getattr(fn, '_reads', ())]
+    reads = sorted(a for a in (set(getattr(fn, '_reads', ())) | reads_of(fn))
+                   if a != '*' and not a.startswith('__'))
+    # only arrays that were ever written differ from their initial value; the
+    # initial arrays are global constants and need not be passed
+    extra = [self.path.heap[a] for a in reads if a in self.path.heap and
+             not (z3.is_const(self.path.heap[a]) and self.path.heap[a].decl().name() == 'H0_' + a)]
+    name += ''.join('' for _ in extra)
     sorts = [Val] * len(terms) + [e.sort() for e in extra]
     allargs = terms + extra
+    if extra:
+        name += '_h' + '_'.join(a for a in reads if a in self.path.heap and not (
+            z3.is_const(self.path.heap[a]) and self.path.heap[a].decl().name() == 'H0_' + a))
     if kind == 'bool':
         f = z3.Function(name, *(sorts + [z3.BoolSort()]))
         app = f(*allargs)
